@@ -401,12 +401,16 @@ def decide(prop, tier, repo, seed, only_units=None, quiet=False):
                                     "no concrete failing input is produced by this back end.", cex)
                 out_lines.append("obligation failed: %s/%s — %s" % (name, f, "; ".join(sorted(set(e["msg"] + (" :: " + e["clause"] if e["clause"] else "") for e in errs)))[:600]))
                 out_lines.append("VIOLATION property=%s replay=%s %s" % (prop, path, note))
+        seen_replays = set()
         if fallback_violations:
             status = 1
             for (name, fb, msg, out) in fallback_violations:
                 os.makedirs(os.path.join(VERIF, "replays"), exist_ok=True)
                 h = hashlib.sha256(out.encode()).hexdigest()[:10]
-                path = os.path.join(VERIF, "replays", "%s-%s-fallback-%s.json" % (prop, name, h))
+                path = os.path.join(VERIF, "replays", "%s-%s-%s-%s.json" % (prop, name, re.sub(r"\W+", "_", fb.get("filter", "fallback")), h))
+                if path in seen_replays:
+                    continue
+                seen_replays.add(path)
                 json.dump({"property": prop, "unit": name, "failed_obligation": "bounded native replay of the unit's contracts (%s)" % fb["bound"],
                            "reason": "the deductive check of this unit is undecided on the current source (unsupported construct / lost anchor); the contracts were replayed natively on the real code",
                            "failing_input": msg, "native_output_tail": out[-3000:],
